@@ -1,6 +1,7 @@
 #!/bin/bash
 # usage: tools/run_all.sh [quick|thorough] — runs every claimed check sequentially, prints one line each.
 # Works from any copy of /verif (uses the directory it lives in; evidence/replays go there too).
+export DBUS_SESSION_BUS_ADDRESS="${DBUS_SESSION_BUS_ADDRESS:-unix:path=/nonexistent/vmon-no-session-bus}"   # no session bus daemon per process (keyring init)
 tier=${1:-quick}
 here="$(cd "$(dirname "$0")/.." && pwd)"
 cd "$here"; ./build.sh || exit 2
